@@ -86,7 +86,7 @@ def r21(chk, m):
     for label, definition, params, want in cases:
         hk = DefHooks(definition)
         hk.should_inline = A.private_only
-        it = A.Interp(model=m, scope=fn, hooks=hk, max_iter=len(definition) + 1, exc_edges=False, inline=2)
+        it = A.Interp(model=m, scope=fn, hooks=hk, max_iter=len(definition) + 1, exc_edges=False, inline=3, heap=True, precise_exc=True)
         outs = it.run_function(fn, env={'definition': list(definition), 'params': params})
         chk.paths += len(outs)
         got = set()
@@ -127,8 +127,9 @@ def r22(chk, m):
         h = H2(m, Definition, stream, stream)
         h.keep = lambda ev: False
         h.should_inline = A.private_only
-        it = A.Interp(model=m, scope=fn, hooks=h, max_iter=len(pattern) + len(stream) + 2, exc_edges=False, inline=2)
-        outs = it.run_function(fn, env={'self.args': list(pattern), 'self.definition': [x]})
+        it = A.Interp(model=m, scope=fn, hooks=h, max_iter=len(pattern) + len(stream) + 2, exc_edges=False, inline=3, heap=True, precise_exc=True)
+        outs = it.run_function(fn, env={'self.args': list(pattern), 'self.definition': [x],
+                                        'tex': A.Obj('tex', {'readArgument': A.Sym('extfunc:tex.readArgument', truthy=True)})})
         chk.paths += len(outs)
         got = set()
         for kind, s2, v in outs:
@@ -200,8 +201,8 @@ def r23(chk, m, rule_id='R2.3'):
 
 
 def r25(chk, m):
-    R = chk.rule('R2.5', 'parameter-text writer/reader agreement: every token class the reader of a \\def parameter text '
-                 '(Definition.invoke) dispatches on can be stored by its writer (the Args branch of readArgumentAndSource)', 2)
+    R = chk.rule('R2.5', 'parameter-text writer and reader together: the text that the writer (the Args branch of readArgumentAndSource) '
+                 'stores for "#1#{" is handed to the reader (Definition.invoke) with the input xyz{b}: #1 must be everything up to the brace', 1)
     ras = m.func('plasTeX.TeX', 'TeX.readArgumentAndSource')
     chk.analysed(ras)
     from .shared import TokenStreamHooks
@@ -233,37 +234,60 @@ def r25(chk, m):
             undetermined.append((cc, sorted(map(repr, res))))
     need(not undetermined, "readArgumentAndSource(type='Args'): what is stored for a token is not determined: %s" % undetermined[:4])
     need(len(stored) >= 10, "the 'Args' writer stores only %s" % sorted(stored))
+    # reader and writer together: what the writer stores for the parameter text  #1#{  and what the reader does with it
     inv = m.func('plasTeX', 'Definition.invoke')
     chk.analysed(inv)
-    Token = m.cls('plasTeX.Tokenizer', 'Token')
-    # reader: the variables that walk over the stored parameter text (for <v> in iter(self.args) and aliases of that iterator)
-    iters = {'self.args', 'iter(self.args)'}
-    changed = True
-    while changed:
-        changed = False
-        for n in M.walk_no_nested(inv.node):
-            if isinstance(n, ast.Assign) and len(n.targets) == 1 and isinstance(n.targets[0], ast.Name) \
-               and text(n.value).replace(' ', '') in iters and n.targets[0].id not in iters:
-                iters.add(n.targets[0].id)
-                iters.add('iter(%s)' % n.targets[0].id)
-                changed = True
-    walkers = {t.id for n in M.walk_no_nested(inv.node) if isinstance(n, ast.For) and text(n.iter).replace(' ', '') in iters
-               for t in ast.walk(n.target) if isinstance(t, ast.Name)}
-    need(walkers, 'Definition.invoke: no loop over the stored parameter text (self.args) found')
-    tested = {}
-    for n in M.walk_no_nested(inv.node):
-        if isinstance(n, ast.Compare) and isinstance(n.left, ast.Attribute) and n.left.attr == 'catcode' \
-           and isinstance(n.left.value, ast.Name) and n.left.value.id in walkers and isinstance(n.ops[0], ast.Eq):
-            v = m.eval_const(inv, n.comparators[0])
-            if isinstance(v, int):
-                tested[v] = n
-    need(CC_PARAMETER in tested, 'Definition.invoke no longer dispatches on parameter tokens')
-    for cc, node in sorted(tested.items()):
-        key = 'hashbrace' if cc == CC_BGROUP else 'reader arm for catcode %d' % cc
-        chk.verdict(R, key, cc in stored,
-                    'Definition.invoke has an arm for category %d in the parameter text, but the writer never stores such a token '
-                    '(it stops before the first begin-group and pushes it back): the arm is dead, so "#1#{" is read as two adjacent '
-                    'undelimited parameters (\\def\\a#1#{[#1]}\\a xyz{b} gives [x]zb)' % cc, chk.where(inv, node), 'stored by the writer')
+    Definition = m.cls('plasTeX', 'Definition')
+    H1, D1, H2_, BR = T('#a', CC_PARAMETER, '#'), T('1', CC_OTHER, '1'), T('#b', CC_PARAMETER, '#'), T('{', CC_BGROUP, '{')
+    h = TokenStreamHooks(m, TeX, [H1, D1, H2_, BR], [H1, D1, H2_, BR])
+    h.keep = lambda ev: False
+    h.should_inline = A.private_only
+    it = A.Interp(model=m, scope=ras, hooks=h, max_iter=6, exc_edges=False, inline=2)
+    env = {a.arg: None for a in ras.node.args.args[1:] + ras.node.args.kwonlyargs}
+    env.update({'type': 'Args', 'delim': ',', 'expanded': False, 'stripLeadingWhitespace': True, 'charsubs': []})
+    texts = set()
+    for kind, s2, v in it.run_function(ras, env=env):
+        if kind == 'return':
+            texts.add(tuple(labels(v[0])) if isinstance(v, tuple) and v and isinstance(v[0], list) and all(isinstance(x, A.Sym) for x in v[0]) else None)
+    if len(texts) != 1 or None in texts:
+        chk.undecided(R, 'hashbrace', 'what the writer stores for the parameter text #1#{ is not determined: %s' % sorted(map(repr, texts)), chk.where(ras))
+        return
+    stored_text = [t for lab in texts.pop() for t in (H1, D1, H2_, BR) if t.label == lab]
+    x, y, z, b_ = T('x', CC_LETTER), T('y', CC_LETTER), T('z', CC_LETTER), T('b', CC_LETTER)
+    stream = [x, y, z, T('{', CC_BGROUP, '{'), b_]
+
+    class RH(TokenStreamHooks):
+        def call(self, interp, node, fname, args, kwargs, state):
+            if fname == 'tex.readArgument':
+                k = state.env.get('__reads', 0)
+                state.env['__reads'] = k + 1
+                return [A.Sym('arg%d' % k)]
+            if fname == 'expandDef' and len(args) == 2:
+                state.env['__params'] = args[1]
+                return []
+            return TokenStreamHooks.call(self, interp, node, fname, args, kwargs, state)
+    hk = RH(m, Definition, stream, stream)
+    hk.keep = lambda ev: False
+    hk.should_inline = A.private_only
+    it = A.Interp(model=m, scope=inv, hooks=hk, max_iter=len(stored_text) + len(stream) + 2, exc_edges=False, inline=3, heap=True, precise_exc=True)
+    try:
+        outs = it.run_function(inv, env={'self.args': list(stored_text), 'self.definition': [x], 'tex': A.Obj('tex', {'readArgument': A.Sym('extfunc:tex.readArgument', truthy=True)})})
+    except AnalysisError as e:
+        chk.undecided(R, 'hashbrace', str(e), chk.where(inv))
+        return
+    if it.imprecise:
+        chk.undecided(R, 'hashbrace', '; '.join(sorted(set(it.imprecise))[:3]), chk.where(inv))
+        return
+    got = set()
+    for kind, s2, v in outs:
+        p_ = s2.env.get('__params')
+        got.add((kind, repr([labels(e) if isinstance(e, list) else e for e in p_]) if isinstance(p_, list) else 'TOP'))
+    want = {('return', "[None, ['x', 'y', 'z']]")}
+    A.IMPRECISION[:] = []
+    chk.decide(R, 'hashbrace', got, want,
+               'for the parameter text #1#{ the writer stores %s and, on the input xyz{b}, the reader binds %s; TeX binds #1 = xyz (everything up '
+               'to the brace): the writer never stores the begin-group token, so "#1#{" is read as two adjacent undelimited parameters '
+               '(\\def\\a#1#{[#1]}\\a xyz{b} gives [x]zb)' % (labels(stored_text), sorted(got)), chk.where(inv))
 
 
 def r26(chk, m, rule_id='R2.6'):
@@ -347,12 +371,35 @@ def r27(chk, m):
     kinds = [('NewCommand', m.cls('plasTeX', 'NewCommand'), True), ('Definition (\\def)', m.cls('plasTeX', 'Definition'), True),
              ('UnrecognizedMacro', m.cls('plasTeX', 'UnrecognizedMacro'), True), ('relax', m.cls('plasTeX.Base.TeX.Primitives', 'relax'), True),
              ('TheCounter', m.cls('plasTeX', 'TheCounter'), True), ('built-in command', m.cls('plasTeX.Base.LaTeX.Sectioning', 'section'), False)]
+    from . import c04
     for label, cls, want in kinds:
-        it = A.Interp(model=m, scope=fn, hooks=RedefHooks(m, Context, cls), max_iter=1, exc_edges=False)
-        outs = it.run_function(fn, env={'name': 'foo', 'nargs': 0, 'definition': None, 'opt': None})
-        chk.paths += len(outs)
-        got = {bool(s.env.get('__added')) for kind, s, v in outs if kind == 'return'}
-        chk.verdict(R, 'newcommand over an existing %s' % label, got == {want},
-                    'newcommand on a name currently bound to a %s %s; expected: %s'
-                    % (label, 'redefines it' if got == {True} else ('is silently ignored' if got == {False} else 'does ' + str(sorted(got))),
-                       'redefines' if want else 'ignored'), chk.where(fn), str(sorted(got)))
+        # interpreted on a heap of frames: the name is known, its current meaning is a class of the given kind; the outcome is
+        # whether the global frame receives a new definition (however the registration is spelled)
+        class H(c04.RegHooks):
+            def call(self, interp, node, fname, args, kwargs, state, kind=cls):
+                if fname == 'self.keys' and not args:
+                    return ['foo']
+                if fname == 'issubclass' and len(args) == 2:
+                    targets = args[1] if isinstance(args[1], tuple) else (args[1],)
+                    if all(isinstance(t, M.ClassInfo) for t in targets):
+                        return any(self.model.is_subclass(kind, t) for t in targets)
+                    return None
+                if fname == 'isinstance' and len(args) == 2 and text(node.args[1]) == 'int':
+                    return isinstance(args[0], int)
+                return c04.RegHooks.call(self, interp, node, fname, args, kwargs, state)
+
+            def decide(self, interp, test, state):
+                if 'self.keys()' in text(test) and isinstance(test, ast.Compare):
+                    return isinstance(test.ops[0], ast.In)
+                return None
+        try:
+            hits = c04.registrations(m, fn, {'name': 'foo', 'nargs': 0, 'definition': None, 'opt': None}, hooks_cls=H, inline=4)
+        except AnalysisError as e:
+            chk.undecided(R, 'newcommand over an existing %s' % label, str(e), chk.where(fn))
+            continue
+        chk.paths += len(hits)
+        got = {repr(h) for h in hits}
+        chk.decide(R, 'newcommand over an existing %s' % label, got, {repr((0,)) if want else repr(())},
+                   'newcommand on a name currently bound to a %s registers in frames %s (0 = the global frame, () = nothing); expected: %s'
+                   % (label, sorted(got), 'a new definition in the global frame' if want else 'nothing (built-in macros are left alone)'), chk.where(fn),
+                   str(sorted(got)))
